@@ -52,6 +52,13 @@ async fn handle_connection(mut socket: WebSocket, state: ApiState) {
         _ => return,
     };
 
+    // The live tail carries the rows of the statement, not every ingested row: subscribe
+    // before the historical part is read (nothing flushed meanwhile is lost), cut the live
+    // rows at the merge point (nothing is sent twice) and apply the WHERE clause to them.
+    let live_rx = request.live.then(|| state.ingester.subscribe());
+    let merge_timestamp = chrono::Utc::now().timestamp_nanos_opt().unwrap_or(0);
+    let live_filter = crate::query::QueryFilter::from_sql(&request.query);
+
     // Execute historical query
     match state.query_node.query(&request.query).await {
         Ok(batches) => {
@@ -86,14 +93,17 @@ async fn handle_connection(mut socket: WebSocket, state: ApiState) {
     }
 
     // Stream live data if requested
-    if request.live {
-        let mut rx = state.ingester.subscribe();
-
+    if let Some(mut rx) = live_rx {
         loop {
             tokio::select! {
                 result = rx.recv() => {
                     match result {
                         Ok(batch) => {
+                            let batch = match live_filter.apply(&batch, merge_timestamp) {
+                                Ok(Some(rows)) => rows,
+                                Ok(None) => continue,
+                                Err(_) => break,
+                            };
                             let json = batch_to_json(&batch);
                             let msg = StreamMessage {
                                 msg_type: "data".to_string(),
